@@ -184,6 +184,10 @@ type Harness struct {
 	OpHook func(name string, live []eval.Value)
 	// CtxNil records whether a registered operator saw a nil *Ctx.
 	SawNilCtx map[string]int
+	// ScribbleArgs makes every registered operator overwrite its own
+	// argument slice before returning (an operator may normalise or sort its
+	// parameters in place; what it was CALLED with must still be reported).
+	ScribbleArgs bool
 }
 
 // Consts registered in every harness config (ConstantMap).
@@ -216,6 +220,11 @@ func (h *Harness) Register(name string, fn ref.CustomFn) {
 		}
 		res, err := fn(args)
 		h.Trace = append(h.Trace, ref.Ev{Name: name, Args: args, Res: res, Err: err})
+		if h.ScribbleArgs {
+			for i := range params {
+				params[i] = "SCRIBBLED-BY-OPERATOR"
+			}
+		}
 		return res, err
 	}
 }
@@ -462,6 +471,18 @@ func (h *Harness) TryEval(e *eval.Expr, f eval.VariableFetcher) (out Out) {
 		h.drain(e)
 	}()
 	v, err := e.TryEval(&eval.Ctx{VariableFetcher: f})
+	return Out{Val: v, Err: err}
+}
+
+// TryEvalCtx is TryEval on a caller-supplied (reused) context.
+func (h *Harness) TryEvalCtx(e *eval.Expr, ctx *eval.Ctx) (out Out) {
+	defer func() {
+		if r := recover(); r != nil {
+			out = Out{Panic: r, Site: panicSite()}
+		}
+		h.drain(e)
+	}()
+	v, err := e.TryEval(ctx)
 	return Out{Val: v, Err: err}
 }
 
